@@ -2051,8 +2051,7 @@ class Surface(SplineGeometry):
 
         if reset_ctrlpts:
             self._control_points = self._init_array()
-            self._control_points_size[0] = 0
-            self._control_points_size[1] = 0
+            self._control_points_size = [0, 0]  # a new list: the sizes read before (or given to another object) stay
             self._bounding_box = self._init_array()
 
         if reset_evalpts:
